@@ -566,6 +566,28 @@ def mem_pair_corpus():
     return out
 
 
+def folded_key_corpus():
+    """two accesses of one storage slot / memory word whose keys are the same constant written differently: a literal, a folded unary
+    operation (ISZERO, NOT of a constant), a folded binary operation; every pairing, store/store, store/load and load/store"""
+    M = (1 << 256) - 1
+    spell = {0: ["PUSH1 0x00", "PUSH1 0x05 ISZERO", "PUSH32 0x%x NOT" % M, "PUSH1 0x01 PUSH1 0x01 SUB"],
+             1: ["PUSH1 0x01", "PUSH1 0x00 ISZERO", "PUSH32 0x%x NOT" % (M - 1), "PUSH1 0x00 PUSH1 0x01 ADD"],
+             M: ["PUSH32 0x%x" % M, "PUSH1 0x00 NOT", "PUSH1 0x01 PUSH1 0x00 SUB"]}
+    out = []
+    for st, ld in (("SSTORE", "SLOAD"), ("MSTORE", "MLOAD")):
+        for v, sps in spell.items():
+            if st == "MSTORE" and v == M:
+                continue
+            for a in sps:
+                for b in sps:
+                    if a == b:
+                        continue
+                    out.append("PUSH1 0xaa %s %s PUSH1 0xbb %s %s" % (a, st, b, st))
+                    out.append("PUSH1 0xaa %s %s %s %s" % (a, st, b, ld))
+                    out.append("%s %s PUSH1 0xbb %s %s" % (a, ld, b, st))
+    return out
+
+
 def tuck_corpus():
     """a value computed from fresh operands (none of them a word of the initial stack) and tucked under untouched words of the initial
     stack with SWAPn .. SWAP1, alone or twice: the stack need is the kept words plus the operands in flight"""
